@@ -58,6 +58,7 @@ spec fn fieldOf(s string, k int) string = s[fieldStart(s, k) - off(s):fEnd(s, fi
   inline
 
 func (*Record).UnmarshalText
+  loops 2
   requires rec != nil
   modifies rec.Addr, rec.Names
   logged
@@ -100,6 +101,7 @@ func (*Record).UnmarshalText
 // IPv4-mapped form included), followed by a space; the first name follows
 // (the positions of the further names are not stated).
 func (Record).MarshalText
+  loops 2
   requires len(rec.Names) <= 1000000000
   requires forall i in 0..len(rec.Names): len(rec.Names[i]) <= 1000000000
   ensures no_error: err == nil
@@ -130,8 +132,12 @@ spec fn lineOf(e error) int = as(e, "*LineError").Line
   inline
 
 func Parse
+  loops 1
   logged
   requires dst != nil
+  // the scanner may use the caller's buffer but keeps the library's token
+  // limit: a small buffer must not make long lines unreadable
+  at_call bufio.(*Scanner).Buffer prove full_token_limit: arg2 == 65536
   // what a line means is Record.UnmarshalText's business (property C07);
   // Parse only needs its frame and the log of its calls
   from (*Record).UnmarshalText nothing
@@ -194,6 +200,7 @@ spec fn storageOK(s *DefaultStorage) bool =
 // NewDefaultStorage: every reader is parsed on its own, in order, into the
 // new storage (a source name and the line numbers are per reader).
 func NewDefaultStorage
+  loops 1
   ensures one_parse_per_reader: err == nil ==> calls("hostsfile.Parse") == len(readers) && s != nil
   ensures stops_at_first_error: err != nil ==> s == nil && calls("hostsfile.Parse") >= 1 && calls("hostsfile.Parse") <= len(readers)
   loop 0
@@ -213,6 +220,7 @@ func (*orderedSet).add
   ensures storage_kept_or_fresh: ref(os.vals) == old(ref(os.vals)) || fresh(os.vals)
 
 func (*DefaultStorage).Add
+  loops 1
   requires storageOK(s) && rec != nil
   // the record's name slice is the caller's: it shares no memory with the
   // storage's own name lists
